@@ -626,28 +626,29 @@ def mapRows (rowSize : Nat) (f : List Nat → List Nat) : Nat → List Nat → L
   | 0, ws => ws
   | h + 1, ws => f (ws.take rowSize) ++ mapRows rowSize f h (ws.drop rowSize)
 
-/-- repaired (D1): words are bit-reversed also when `width % 32 == 0` -/
-def rotate180 (m : WMat) : Res WMat :=
-  let height := m.height
-  let rowSize := m.rowSize
+/-- the word-swapping loops of `Rotate180` (row pairs, then the middle row when `height` is odd) -/
+def rotate180Swap (rowSize height : Nat) (ws : List Nat) : Res (List Nat) :=
   match (List.range (height / 2)).foldlM (fun ws i =>
       let topOffset := i * rowSize
       let bottomOffset := (height - i) * rowSize - 1
       (List.range rowSize).foldlM (fun ws j => swapWords ws (topOffset + j) (bottomOffset - j)) ws)
-      m.words with
+      ws with
   | .error e => .error e
   | .ok ws1 =>
-    let r2 := if height % 2 ≠ 0 then
-        let offset := rowSize * (height - 1) / 2
-        (List.range (rowSize / 2)).foldlM
-          (fun ws j => swapWords ws (offset + j) (offset + rowSize - 1 - j)) ws1
-      else .ok ws1
-    match r2 with
-    | .error e => .error e
-    | .ok ws2 =>
-      let shift := m.width % 32
-      if shift ≠ 0 then .ok { m with words := mapRows rowSize (realignRow shift) height ws2 }
-      else .ok { m with words := ws2.map rev32 }
+    if height % 2 ≠ 0 then
+      let offset := rowSize * (height - 1) / 2
+      (List.range (rowSize / 2)).foldlM
+        (fun ws j => swapWords ws (offset + j) (offset + rowSize - 1 - j)) ws1
+    else .ok ws1
+
+/-- repaired (D1): words are bit-reversed also when `width % 32 == 0` -/
+def rotate180 (m : WMat) : Res WMat :=
+  match rotate180Swap m.rowSize m.height m.words with
+  | .error e => .error e
+  | .ok ws2 =>
+    let shift := m.width % 32
+    if shift ≠ 0 then .ok { m with words := mapRows m.rowSize (realignRow shift) m.height ws2 }
+    else .ok { m with words := ws2.map rev32 }
 
 def rotate90 (m : WMat) : Res WMat :=
   let newWidth := m.height
